@@ -117,6 +117,9 @@ def r2(ctx, F):
             ctx.saw(f)
             n += 1
             rv = prov.prov_of(f).return_value()
+            if f.name != 'into_current_strain_peaks':
+                # "same peaks as into_current_strain_peaks(self)": read through the sibling method
+                rv = prov.inline_all(F, rv, depth=1, _seen=(f.path,), only=lambda f_: f_.get('name') == 'into_current_strain_peaks')
             calls = [x for x in prov.walk(rv, limit=300) if x[0] == 'call' and x[1].get('name') == 'get_current_strain_peaks']
             good = False
             why = prov.show(rv, maxdepth=4)
@@ -166,6 +169,9 @@ def r2(ctx, F):
         dv_calls_strains = set()
         for fld, v in lits[0][4].items():
             nfields += 1
+            # free helper functions (`fn peaks_vec(skill) -> Vec<f64>`) are read through; methods of skills / calculators are not
+            v = prov.inline_all(F, v, depth=2, _seen=(fn.path,), only=lambda f_: not f_.get('impl_adt') and not f_.get('trait') and
+                                '{closure' not in (f_.get('path') or '') and (f_.get('path') or '').startswith(('any::difficulty::', mode + '::strains::', 'util::')))
             s = prov.strip(v, names=set())
             good = s[0] == 'call' and s[1].get('name') == 'into_vec' and s[1].get('impl_adt', '').endswith('StrainsVec')
             inner = prov.strip(s[2][0], names=set()) if good else None
